@@ -7,6 +7,7 @@ import (
 
 	"github.com/IrineSistiana/mosproxy/internal/cache"
 	"github.com/IrineSistiana/mosproxy/internal/dnsmsg"
+	"github.com/IrineSistiana/mosproxy/internal/mlog"
 	"github.com/IrineSistiana/mosproxy/internal/pool"
 	"github.com/IrineSistiana/mosproxy/internal/verifrt"
 )
@@ -185,6 +186,7 @@ func vHasOpt(m *dnsmsg.Msg) bool {
 // vRouter builds a router around scripted upstreams; cache on/off.
 func vRouter(rules []*rule, withCache bool) *router {
 	r := &router{
+		logger:   mlog.Nop(),
 		ctx:      context.Background(),
 		limiter:  &resourceLimiter{},
 		prefetch: newPrefetchCtl(),
